@@ -134,6 +134,23 @@ def flow_constraints(rep, res, entry, need, probs=None, rule="R-FLOW", what="con
                 alld |= R.closure_deps(res, c)
             else:
                 foreign |= R.closure_deps(res, c)
+        # a variable re-parameterised above an offset (x = v + c with v bounded below by a constant, or declared non-negative): the offset c
+        # IS the bound — its origins constrain the intensities although no inequality mentions them
+        bounded_leaves = set()
+        for c, cv in cvs:
+            for side in (c.tag("lhs"), c.tag("rhs")):
+                if side is not None and side.tag("cvx") == "leaf" and not side.tag("atom"):
+                    bounded_leaves |= {r_ for r_ in side.flat().refs if res.heap.get(r_) is not None and res.heap[r_].kind == "cvxvar"}
+        for r_ in ov:
+            o_ = res.heap.get(r_)
+            if o_ is not None and (o_.attrs.get("nonneg") or o_.attrs.get("pos")):
+                bounded_leaves.add(r_)
+        for at, v_, ops_ in R.walk_atoms(obj):
+            if at in ("add", "sub") and len(ops_) == 2:
+                leaf = [x_ for x_ in ops_ if x_.tag("cvx") == "leaf" and not x_.tag("atom") and (set(x_.flat().refs) & bounded_leaves)]
+                const_ = [x_ for x_ in ops_ if not x_.tag("cvx") or x_.tag("cvx") == "param" or (x_.tag("cvx") == "leaf" and not (set(x_.flat().refs) & ov))]
+                if len(leaf) == 1 and len(const_) == 1:
+                    alld |= R.closure_deps(res, const_[0])
         for o in sorted(need):
             ok = o in alld
             rep.check(rule, f"{o} → {what}", ok, where=where_po(po),
